@@ -5,7 +5,7 @@ package raczlib
 
 // Exports for the /verif C13 correspondence check (lib/internal/racdict's
 // Saver / Loader and this package's refine vs. the Lean model
-// Model/Rac/Dict.lean). The harness lives in another module and cannot import
+// Model/Rac/DictSaver.lean). The harness lives in another module and cannot import
 // an internal package, so racdict is reached through here. Compiled only with
 // the "verif" build tag; nothing here changes the package's behaviour.
 
